@@ -39,6 +39,9 @@ for mpath in sorted(glob.glob(os.path.join(V, 'seeded', 'C??-?', 'meta.json'))):
 out = ['| seed | what it changes (needs to manifest) | confirmed | caught by |', '|---|---|---|---|']
 caught = total = 0
 for sid, meta, ok, checks in rows:
+    if not checks:
+        out.append('| %s | %s | %s | not evaluated yet (see meta.json) |' % (sid, (meta.get('summary', '') or '')[:170].replace('|', '/').replace('\n', ' '), 'yes' if ok else 'see meta.json'))
+        continue
     total += 1
     hit = [c for c in checks if c['violation']]
     if hit: caught += 1
@@ -54,4 +57,4 @@ out.append('%d of %d independently seeded changes are reported by the check of t
 open(os.path.join(V, 'docs', '_seedtable.md'), 'w').write('\n'.join(out) + '\n')
 print('%d/%d caught' % (caught, total))
 for sid, meta, ok, checks in rows:
-    if not any(c['violation'] for c in checks): print('MISSED', sid, [c['summary'][-90:] for c in checks])
+    if checks and not any(c['violation'] for c in checks): print('MISSED', sid, [c['summary'][-90:] for c in checks])
